@@ -191,7 +191,7 @@ def eval_direct(case, rng, thorough):
 # ------------------------------------------------------------------ end-to-end level
 def eval_e2e(case, rng, thorough):
     mx = suites.matrix()
-    v, code, name, p = mx[rng.randrange(len(mx))]
+    v, code, name, p = suites.pick(rng)
     spec, cl = tlssynth.random_spec(rng, v, code, nmax=14, big=False)
     if not spec.app:
         spec.app = [("c", rng.randbytes(50)), ("s", rng.randbytes(70))]
